@@ -182,7 +182,7 @@ def rule_root(ck, facts, pm):
             ck.bad(R, "root|exit-at-end", "the root loop can be left while tokens remain (exit not guarded by is_at_end())", f.where())
 
 
-def rule_trivia(ck, facts):
+def rule_trivia(ck, facts, loss=True):
     R = "C13.trivia"
     ck.rule(R, "pre-parser: the pending-trivia vector only loses elements by append/extend into a trivia map; clear/truncate/pop/drain = loss site; storing it with a map `insert` overwrites the trivia the token already has")
     lang = facts.crate(roles.LANG)
@@ -243,7 +243,7 @@ def rule_trivia(ck, facts):
         if not t[5]:
             continue
         recv = base_local(t[5][0])
-        if recv == pl and short in ("clear", "truncate", "pop", "drain", "remove", "swap_remove", "split_off", "retain"):
+        if loss and recv == pl and short in ("clear", "truncate", "pop", "drain", "remove", "swap_remove", "split_off", "retain"):
             ck.bad(R, "loss|%s|%s" % (f.short, short), "pre-parser: pending trivia is discarded by `%s` — comment/whitespace tokens collected so far are attached to no token" % short, f.where(t))
         if short in ("append", "extend") and len(t[5]) >= 2 and base_local(t[5][1]) == pl:
             sinks += 1
